@@ -118,7 +118,7 @@ def stepOp (seqIds : List Nat) (a0 : Acc) (op : Op) : Acc :=
     let c1 := OllamaVerif.Causal.copyPrefix a.c src dst len
     { a with c := c1, xs := s!"C;abs={showKeys (absKeys c1)}" :: a.xs, ls := showLayout c1 seqIds false :: a.ls }
   | .rm seq b e =>
-    let (c1, r) := OllamaVerif.Causal.remove a.c seq b e
+    let (c1, r) := OllamaVerif.Causal.removeV a.c seq b e
     let rs := match r with | .ok => "ok" | .shared => "err:shared" | .notsup => "err:notsup"
     { a with c := c1, xs := s!"R:{rs};abs={showKeys (absKeys c1)}" :: a.xs, ls := showLayout c1 seqIds false :: a.ls }
   | .q seq pos =>
@@ -152,7 +152,7 @@ def pHistory : TP (Cache × List Op) := do
   let hasShift ← nat
   let _permV ← nat; let _maskF16 ← nat; let _maxNodes ← nat
   let ops ← listOf pOp
-  let v : Variant := { fixDefrag := vbits % 2 = 1, fixResume := (vbits / 2) % 2 = 1, fixDiv := (vbits / 4) % 2 = 1, perSeqBatch := (vbits / 8) % 2 = 1 }
+  let v : Variant := { fixDefrag := vbits % 2 = 1, fixResume := (vbits / 2) % 2 = 1, fixDiv := (vbits / 4) % 2 = 1, perSeqBatch := (vbits / 8) % 2 = 1, atomicRemove := (vbits / 16) % 2 = 1 }
   pure (init v w maxSeq capacity maxBatch cpad bpad (hasShift != 0), ops)
 
 def runHistory (layout : Bool) (c : Cache) (ops : List Op) : String :=
@@ -212,7 +212,7 @@ def pWHistory : TP (List Cache × List Op) := do
   let hasShift ← nat
   let _permV ← nat; let _maskF16 ← nat; let _maxNodes ← nat
   let ops ← listOf pOp
-  let v : Variant := { fixDefrag := vbits % 2 = 1, fixResume := (vbits / 2) % 2 = 1, fixDiv := (vbits / 4) % 2 = 1, perSeqBatch := (vbits / 8) % 2 = 1 }
+  let v : Variant := { fixDefrag := vbits % 2 = 1, fixResume := (vbits / 2) % 2 = 1, fixDiv := (vbits / 4) % 2 = 1, perSeqBatch := (vbits / 8) % 2 = 1, atomicRemove := (vbits / 16) % 2 = 1 }
   let swa := init v w maxSeq capacity maxBatch cpad bpad (hasShift != 0)
   let full := init v none maxSeq capacity maxBatch cpad bpad (hasShift != 0)
   pure (if order = 2 then [full, swa] else [swa, full], ops)
